@@ -49,7 +49,7 @@ type Plan struct {
 var gapChoices = []int{0, 0, 0, 333, 1000, 3000}
 
 func genPlan(t *rapid.T) Plan {
-	p := Plan{Size: rapid.SampledFrom([]int{1, 2, 3, 8}).Draw(t, "size")}
+	p := Plan{Size: rapid.SampledFrom([]int{1, 2, 3, 8, 2, 3, math.MaxInt}).Draw(t, "size")} // MaxInt: "batch on time only"
 	p.Func = rapid.IntRange(0, 3).Draw(t, "func") == 0
 	if p.Func {
 		p.Sizes = rapid.SliceOfN(rapid.IntRange(1, 4), 1, 3).Draw(t, "sizes")
@@ -77,6 +77,9 @@ func genPlan(t *rapid.T) Plan {
 	p.Deaf = rapid.IntRange(0, 5).Draw(t, "deaf") == 0
 	if p.Deaf {
 		p.EndErr = false
+		if p.Size == math.MaxInt {
+			p.Huge = false // an endless source, no size limit and no time limit: no batch would ever be due
+		}
 	}
 	if p.Deaf || rapid.IntRange(0, 2).Draw(t, "closeearly") == 0 {
 		p.Consumer = append(p.Consumer, COp{Op: "close"})
